@@ -7,8 +7,9 @@ import sanlib
 from sanlib import REF_ELEMS, REF_ATTRS, REF_MATHML_E, REF_MATHML_A, REF_SVG_E, REF_SVG_A, REF_VOID
 from props import C03
 
-LEAN_MODULES = ["FeedVerif.Props.C13", "FeedVerif.Model.SanDriver"]
-CORR_OBLIGATIONS = ["M-san.step ~ HTMLSanitizer callbacks on safe-biased markup", "M-san.resolverStep ~ RelativeURIResolver callbacks (real make_safe_absolute_uri results as oracle values)"]
+LEAN_MODULES = ["FeedVerif.Props.C13", "FeedVerif.Model.SanDriver", "FeedVerif.Model.MixinDriver"]
+CORR_OBLIGATIONS = ["M-mixin (stage 2) ~ the real pop() on title and the text-construct elements: content type, value and *_detail after the guess / resolver / sanitizer steps, whose answers (and the per-call options) are passed to the model as parameters",
+                    "M-san.step ~ HTMLSanitizer callbacks on safe-biased markup", "M-san.resolverStep ~ RelativeURIResolver callbacks (real make_safe_absolute_uri results as oracle values)"]
 TRUSTED = C03.TRUSTED
 ASSUMPTIONS = ["tools/oracles/html5tok.py is used on both the authored markup and the output; equality of token streams is judged modulo the documented normalisation"]
 
@@ -156,8 +157,10 @@ def correspondence(ctx):
             if len(dis) < 20:
                 dis.append({"which": m[0], "markup": m[1], "type": m[2], "line": l[:160], "model": dec(g.split()[1]) if g.startswith("P ") else g,
                             "impl": dec(e.split()[1]) if e.startswith("P ") else e})
-    return {"cases": len(lines), "distinct": len(set(zip(lines, exp))), "unmodelled": 0, "disagreements": dis, "distribution": dist,
+    res = {"cases": len(lines), "distinct": len(set(zip(lines, exp))), "unmodelled": 0, "disagreements": dis, "distribution": dist,
             "samples": [{"markup": meta[1][1][:200]}]}
+    import mixlib
+    return mixlib.content_corr(ctx, ctx.n(60, 800), into=res)
 
 
 # ------------------------------------------------------------------ search
